@@ -149,12 +149,13 @@ PROPS["C04"] = dict(
 PROPS["C20"] = dict(
     lean_modules=["QuaiVerif.Props.C20"],
     areas=[dict(name="conv", n_quick=800, n_thorough=20000, seeds_thorough=3, n_search=3000),
+           dict(name="c13chain", n_quick=3, n_thorough=30, seeds_thorough=2, n_search=8, timeout=3000),
            dict(name="c04h", n_quick=12, n_thorough=150, seeds_thorough=3, n_search=16, timeout=3000, confirm_diff=True)],
     facts=["denominations", "conv_pipeline_fingerprint"],
     rule="a case is one block context (PrimeTerminusNumber around the KawPow / SHA-equivalent / kQuai-reset forks or early, random number, difficulty, "
          "exchange rate, share counts) with 6 amounts (0, dust, minimum conversion, 2^60..2^120, random) through the real QiToQuai / QuaiToQi both ways, "
          "4 amounts through FindMinDenominations, 4 (value, mean) pairs (incl. value = mean, 10*mean, 10*mean+1) through ApplyCubicDiscount, and a probe that "
-         "repricing copies of a conversion ETX twice leaves the cached ETX untouched. [c04h, shared with C04] every conversion the chainworld users make on a "
+         "repricing copies of a conversion ETX twice leaves the cached ETX untouched. [c13chain, shared with C13] an address that receives nothing but Qi->Quai conversions must hold, after every block, exactly the conversions past their lock period (credited once, at that height). [c04h, shared with C04] every conversion the chainworld users make on a "
          "real prime / region / zone hierarchy (both directions, slippage bounds 0..9999 bp and none, amounts up to thousands of times the minimum) is followed "
          "from the zone block that debits it through prime's repricing to the zone block that receives it",
     level_text="Round trips at a fixed rate never gain, monotonicity of unit conversion, 'repriced amount is between 10% of the original and the original', "
@@ -177,14 +178,14 @@ def lockup_preamble(facts, impl):
 
 PROPS["C13"] = dict(
     lean_modules=["QuaiVerif.Props.C13", "QuaiVerif.Props.C13b", "QuaiVerif.Props.C13c", "QuaiVerif.Props.C13d"],
-    areas=[dict(name="lockup", n_quick=600, n_thorough=12000, seeds_thorough=3, n_search=2500, preamble=lockup_preamble), dict(name="c13chain", n_quick=4, n_thorough=40, seeds_thorough=3, n_search=10, timeout=3000),
+    areas=[dict(name="lockup", n_quick=600, n_thorough=12000, seeds_thorough=3, n_search=2500, preamble=lockup_preamble), dict(name="c13chain", spec_ops=("tdisc", "split"), n_quick=4, n_thorough=40, seeds_thorough=3, n_search=10, timeout=3000),
            dict(name="c07", n_quick=2, n_thorough=12, seeds_thorough=2, n_search=6, timeout=3000)],
     facts=["lockup_undo_uses_old_delegate", "revert_restores_lockup_batch"],
     rule="[c13chain] a case is one 36-block history of the real zone node (see C06) in which three reward-only Quai addresses that exist from genesis and two that do not exist yet receive coinbases (lock bytes 0-3, as miner coinbase and as inbound coinbase ETXs, incl. groups of 2-3 that unlock together with amounts just below / at / above the account-creation fee) and Qi->Quai conversions and never transact; after every block their balances (and, for the new ones, their existence) are compared with the model and with an independent replay of matured rewards. [lockup] a case is one multi-block history on a real block batch (pending mode, committed at block boundaries) of 6-30 operations over 2 owner contracts x 2 miners "
          "x 3 lockup bytes x 3 epochs: AddNewLock (delegate changes, unlock heights incl. epoch-aligned 0), claims through EVM.Call into the lockup precompile by "
          "owner and non-owner, before/at/after the tranche unlock height, with too little gas, to the other ledger, repeated in the same and in later blocks, and "
          "claims inside a frame that REVERTs; all non-trivial; distinct by sub-seed",
-    level_text="[payout schedule] 'after blocks 1..h a reward-only account holds exactly the rewards whose unlock height block+depth has been reached, each once, none earlier' is a Lean theorem (induction over heights) over the RedeemLockedQuai look-back model, run in lock-step with reward-only accounts of a real zone chain (area c13chain: Quai coinbases of every lock byte and Qi->Quai conversions, balances after every block, plus an independent ledger); issuance: 'one reward per seal (block or work share) of the rewarded height, none above the block reward, all together at most the block reward plus the one-unit floor' are theorems over the entropy-proportional split (C13d, the rule before the KawPow fork), compared per block with the coinbase ETXs the real chain emits (recipient, label = seal hash, amount; T3: no seal rewarded by two blocks), and blocks that carry a work share twice, a share an ancestor already carries, or an ancestor as a share must be rejected (area c07); for accounts that do not exist yet, 'the creation fee is withheld at most once - from the first payout that can cover it, smaller ones before it are dropped, every later one is credited in full' and 'never more than the payouts' are theorems over the sequential payout model (C13c), which for accounts that exist is proved equal to the schedule. Claim conditions and amount, claim-once, owner-only, per-tranche accumulation (balance = sum of values over any run of additions) and the undo "
+    level_text="[payout schedule] 'after blocks 1..h a reward-only account holds exactly the rewards whose unlock height block+depth has been reached, each once, none earlier' is a Lean theorem (induction over heights) over the RedeemLockedQuai look-back model, run in lock-step with reward-only accounts of a real zone chain (area c13chain: Quai coinbases of every lock byte and Qi->Quai conversions, balances after every block, plus an independent ledger); issuance: 'one reward per seal (block or work share) of the rewarded height, none above the block reward, all together at most the block reward plus the one-unit floor' are theorems over the entropy-proportional split (C13d, the rule before the KawPow fork), compared per block with the coinbase ETXs the real chain emits (recipient, label = seal hash, amount; T3: no seal rewarded by two blocks), the time discount of a share's reward (full up to the no-penalty threshold, then linear down to the unlively share at the liveness time of its algorithm: never above the reward, never below the floor) is a theorem over the formula, run against the real CalculateTimeDiscountedShareReward for every algorithm and delays around every threshold; and blocks that carry a work share twice, a share an ancestor already carries, or an ancestor as a share must be rejected (area c07); for accounts that do not exist yet, 'the creation fee is withheld at most once - from the first payout that can cover it, smaller ones before it are dropped, every later one is credited in full' and 'never more than the payouts' are theorems over the sequential payout model (C13c), which for accounts that exist is proved equal to the schedule. Claim conditions and amount, claim-once, owner-only, per-tranche accumulation (balance = sum of values over any run of additions) and the undo "
                "record being the old record are Lean theorems over the lockup-ledger model; the two source facts the fixed variant depends on are regenerated; "
                "the model is run against the real AddNewLock / lockup precompile / ReadCoinbaseLockup on a real batch across block boundaries.",
     level_note="PARTIAL: the base reward CalculateQuaiReward / CalculateQiReward and the fee components are read from the real functions (inputs of the split), the "
